@@ -1,6 +1,5 @@
 CONSTANT MaxDev = 1
 SPECIFICATION Spec
 CONSTRAINT Slim
-INVARIANTS SinglePoint Emit
-PROPERTY Monotone
+INVARIANTS SinglePoint OnlyWholeIdentity Emit
 CHECK_DEADLOCK FALSE
